@@ -403,6 +403,8 @@ def c04 (fn : String) (a : List String) : Option String := do
     -- odd variants carry exactly one bad cell (in a merger book, which a named-workbook run does not convert)
     some (if v % 2 == 1 && named == "0" then "same err" else "same ok")
   | "o.c04.det", [_, _, _, obs] => some (if obs.startsWith "same " then "holds" else "FAILS")
+  | "c04.alias", [_, _, _] => some "ok"    -- every lookup is a function of (enum, alias): the schedule is not an input
+  | "o.c04.alias", [_, _, _, obs] => some (verdict (obs == "ok"))
   | "c06.squeeze", [t] => some (encStr (TextFmt.squeeze (← decStr? t)))
   | "c06.rt", mask :: _ =>
     -- the three files decode to the message (codecs: trusted laws; squeeze: C06_squeeze_keeps_literals); with
